@@ -287,6 +287,10 @@ def run(ctx):
     if not ok_d:
         ok, log = False, log + log_d
     thms = thms + thms_d
+    ok_c, thms_c, log_c = extra_property_file(ctx, "C16_closed")     # closed form of the dependencies of the combined schema
+    if not ok_c:
+        ok, log = False, log + log_c
+    thms = thms + thms_c
     rng = random.Random(ctx.seed)
     scale = 1 if ctx.tier == "quick" else 10
     items = []
